@@ -36,7 +36,9 @@ KINDS = ['str', 'bytes', 'str_nonascii', 'empty_str', 'empty_bytes', 'none', 'li
          'exception', 'gen_exception_first', 'unsupported_int', 'unsupported_list', 'abort', 'gen_raises_resp', 'dict_false', 'iter_of_lists',
          'iterable_sep_iter', 'iterable_gen_iter', 'iterable_sep_iter_bytes',
          # exactly one chunk and nothing after it, not even an empty item
-         'iter_single', 'iter_single_bytes', 'iterable_single', 'gen_single']
+         'iter_single', 'iter_single_bytes', 'iterable_single', 'gen_single',
+         # empty items first, then a failure / a raised response: still "before the first body chunk"
+         'gen_empties_then_exception', 'gen_empties_then_err', 'gen_empties_then_resp']
 METHODS = ['GET', 'HEAD', 'POST']
 STATUSES = [200, 201, 204, 304, 100, 102, 404, 500, 299, 999, '250 Custom Reason']     # 299: no registered reason phrase
 
@@ -118,13 +120,17 @@ class SepIterable:
         self.st['iter_close'] += 1
 
 
-def counted_gen(items, st, raise_first=None):
+def counted_gen(items, st, raise_first=None, raise_after=None):
     st['gen_finalised'] = 0
     st['gen_started'] = False
 
     def g():
         try:
             st['gen_started'] = True
+            if raise_after is not None:
+                for it in items:
+                    yield it
+                raise raise_after
             if raise_first is not None:
                 raise raise_first
             for it in items:
@@ -234,6 +240,12 @@ def make_world(hooks, errh):
             return counted_gen(['', HTTPError(S, 'err-from-gen')], st)
         if kind == 'gen_raises_resp':
             return counted_gen([], st, raise_first=HTTPResponse('raised-in-gen', S))
+        if kind == 'gen_empties_then_exception':
+            return counted_gen(['', b'', None], st, raise_after=KeyError('failed after the empty items'))
+        if kind == 'gen_empties_then_err':
+            return counted_gen(['', ''], st, raise_after=HTTPError(S, 'err-after-empties'))
+        if kind == 'gen_empties_then_resp':
+            return counted_gen([b'', ''], st, raise_after=HTTPResponse('raised-in-gen', S))
         if kind == 'nested3':
             return HTTPResponse(HTTPResponse(HTTPResponse('deep', S), 202), 203)
         if kind == 'exception':
@@ -342,17 +354,17 @@ def reference(p):
             status, body = S, PLAIN_BODY[kind]
         elif kind in ('resp_returned', 'resp_raised'):
             status, body = S, b'resp-body'
-        elif kind in ('err_returned', 'err_raised', 'abort', 'gen_yields_err'):
+        elif kind in ('err_returned', 'err_raised', 'abort', 'gen_yields_err', 'gen_empties_then_err'):
             err = S
         elif kind == 'resp_gen_body':
             status, body = S, b'rg1rg2'
         elif kind == 'gen_yields_resp':
             status, body = S, b'from-gen'
-        elif kind == 'gen_raises_resp':
+        elif kind in ('gen_raises_resp', 'gen_empties_then_resp'):
             status, body = S, b'raised-in-gen'
         elif kind == 'nested3':
             status, body = S, b'deep'
-        elif kind in ('exception', 'gen_exception_first', 'unsupported_int', 'unsupported_list', 'iter_of_lists'):
+        elif kind in ('exception', 'gen_exception_first', 'unsupported_int', 'unsupported_list', 'iter_of_lists', 'gen_empties_then_exception'):
             err = 500
         else:
             raise AssertionError(kind)
